@@ -74,12 +74,16 @@ CHECKS = {
          'Byte-exact framing and payload layout for all 17 message types on all four chains, field-exact parse and byte-identical re-framing, exact '
          'stream consumption over 1..6 concatenated frames, parse of older version-message layouts; every magic / checksum / payload / length / '
          'truncation fault must raise (truncation => SerializationTruncationError, un-honourable length => no read beyond the header) and never return a message.', TRUST),
+ 'C19': ('exploration', 'Hypothesis stateful testing of call histories on one proxy against a scripted in-process server; oracles = Decimal-exact amounts, byte-reversed hash identity across calls, reference object encodings, registered error-class map, monotone request ids',
+         'A recording connection is injected; rules receive amounts in seven JSON spellings through six calls, send amounts through two, move hashes '
+         'from six producing calls into seven consuming calls, ship transactions/headers/blocks both ways and serve ten malformed / error reply shapes; '
+         'every conversion must be exact, every error must raise the registered class and ids must strictly increase over the whole history.', TRUST),
  'C20': ('exploration', 'Hypothesis stateful testing (insert / query / round-trip histories) against a bit-set model built on a reference MurmurHash3; enumeration of hash lengths and cap boundaries',
          'After every step of every history the filter bytes must equal the model bit array given by the BIP37 schedule and contains() must equal '
          'model membership (no false negatives, exact false-positive set); caps, wire layout and round trip; filters arriving from the wire with '
          'empty data or arbitrary hash counts; MurmurHash3 on all lengths 0..67.', TRUST),
 }
-PENDING_REASON = 'check not built yet in this session (design in DESIGN.md section 4); will be claimed once its check is committed'
+PENDING_REASON = 'n/a'
 ALL = ['C%02d' % i for i in range(1, 21)]
 
 
